@@ -1,93 +1,93 @@
 package main
 
 import (
-	"math"
-	"runtime/debug"
-	"sync"
 	"fmt"
 	"go/constant"
 	"go/token"
 	"go/types"
+	"math"
+	"runtime/debug"
 	"strings"
+	"sync"
 
 	"golang.org/x/tools/go/ssa"
 )
 
 // Run is one path execution.
 type Run struct {
-	M        *Machine
-	S        *Solver
-	TT       *TermTable
-	Prefix   []int // decisions to replay
-	Trace    []int // decisions taken
-	Alts     [][]int
-	PC       []*Term
-	Globals  map[*ssa.Global]*Value
-	Steps    int
-	NVars    int
-	Inputs   []*Term
-	Violated []string
-	Reached  map[string]bool
-	vsymN    map[string]int
-	Choices  []string
-	Ints     []int
-	Viol     []Violation
-	Inited   map[*ssa.Package]bool
-	InInit   int
-	FnCount  map[string]int
-	GoCount  int
-	Sch      *Sched
-	SpawnOK  bool
-	Leaked   int
-	curWhere string
-	curFn    string
-	crcApps  map[int][]*Term
-	Axioms   int
-	Bloom    map[string][][]Value
-	BloomN   int
+	M                   *Machine
+	S                   *Solver
+	TT                  *TermTable
+	Prefix              []int // decisions to replay
+	Trace               []int // decisions taken
+	Alts                [][]int
+	PC                  []*Term
+	Globals             map[*ssa.Global]*Value
+	Steps               int
+	NVars               int
+	Inputs              []*Term
+	Violated            []string
+	Reached             map[string]bool
+	vsymN               map[string]int
+	Choices             []string
+	Ints                []int
+	Viol                []Violation
+	Inited              map[*ssa.Package]bool
+	InInit              int
+	FnCount             map[string]int
+	GoCount             int
+	Sch                 *Sched
+	SpawnOK             bool
+	Leaked              int
+	curWhere            string
+	curFn               string
+	crcApps             map[int][]*Term
+	Axioms              int
+	Bloom               map[string][][]Value
+	BloomN              int
 	SymLoads, SymStores int
-	SkippedInit []string
-	FS       *SimFS
-	Clock    int64
-	Locks    map[*Value]int
-	Asserts  int
-	MaxZeros int
-	randZeros int
-	randCalls int
-	Opts      *Opts
-	Regions   map[string]*Term
-	RegionOrder []string
-	StepCap   int
-	Observed  []obs
-	StubCount map[string]int
-	CrashImage map[string][]Value
-	RegionOuts []Value
-	curInstr  ssa.Instruction
-	hang      *Violation
-	Blobs     []jsonBlob
-	Pin       map[string]uint64
-	PinAll    bool
+	SkippedInit         []string
+	FS                  *SimFS
+	Clock               int64
+	Locks               map[*Value]int
+	Asserts             int
+	MaxZeros            int
+	randZeros           int
+	randCalls           int
+	Opts                *Opts
+	Regions             map[string]*Term
+	RegionOrder         []string
+	StepCap             int
+	Observed            []obs
+	StubCount           map[string]int
+	CrashImage          map[string][]Value
+	RegionOuts          []Value
+	curInstr            ssa.Instruction
+	hang                *Violation
+	Blobs               []jsonBlob
+	Pin                 map[string]uint64
+	PinAll              bool
 }
 
 type Machine struct {
-	Prog *ssa.Program
-	Intr map[string]func(r *Run, fr *Frame, args []Value) Value
-	FnCount map[string]int
+	Prog        *ssa.Program
+	Intr        map[string]func(r *Run, fr *Frame, args []Value) Value
+	FnCount     map[string]int
 	SkippedInit map[string]bool
-	hostTypes map[string]*types.Named
-	mu sync.Mutex
+	hostTypes   map[string]*types.Named
+	mu          sync.Mutex
 }
 
 type Frame struct {
-	r        *Run
-	fn       *ssa.Function
-	env      map[ssa.Value]Value
-	locals   []Value
-	block    *ssa.BasicBlock
-	prev     *ssa.BasicBlock
-	defers   []func()
-	result   Value
-	caller   *Frame
+	r         *Run
+	fn        *ssa.Function
+	env       map[ssa.Value]Value
+	locals    []Value
+	block     *ssa.BasicBlock
+	prev      *ssa.BasicBlock
+	defers    []func()
+	result    Value
+	caller    *Frame
 	panicking bool
 	panicVal  Value
 }
@@ -1469,17 +1469,19 @@ func floatBinop(op token.Token, a, b float64) Value {
 var noSpawn = map[string]bool{"backgroundFlush": true, "compactionWorker": true, "cleanupStaleTx": true, "monitorLoop": true}
 
 type Violation struct {
-	Msg      string
-	Kind     string // assert | panic | race | deadlock | hang
-	Choices  []string
-	Ints     []int
-	Vars     map[string]uint64
-	Region   string // named known-finding region of the harness' input space the counterexample lies in ("" = none)
-	Decision []int
-	Threads  bool
-	Crash    map[string]string // post-crash directory image (path -> hex), when the path crashed
-	CrashAt  string
-	Outs     []int64
+	Msg        string
+	Kind       string // assert | panic | race | deadlock | hang
+	Choices    []string
+	Ints       []int
+	Vars       map[string]uint64
+	Region     string // named known-finding region of the harness' input space the counterexample lies in ("" = none)
+	Decision   []int
+	Threads    bool
+	Crash      map[string]string // post-crash directory image (path -> hex), when the path crashed
+	CrashAt    string
+	CrashKind  int
+	Ungrounded int
+	Outs       []int64
 }
 
 const subTok = token.SUB
